@@ -3,6 +3,7 @@
 From Coq Require Import List NArith ZArith Bool String.
 From GP Require Import Base.Val Base.Bytes Base.GoStrings Model.Negotiate Model.Handshake Model.Serve Model.Interop Model.Params
   Proofs.InteropP Proofs.ServeP Proofs.RoundTripP Proofs.AgreeP.
+From GP Require Model.Env Proofs.EnvP Proofs.ChainP.
 Import ListNotations.
 
 (* the outcome type of the model has no "hang", "panic" or "silently downgraded" constructor: every
@@ -48,6 +49,57 @@ Proof.
   - unfold in64, int_min, int_max. cbn. split; discriminate.
   - cbn. repeat constructor.
 Qed.
+
+(* the same through the host's scanner and select: the plugin's stdout carries the line, a newline, then anything; Start's
+   only outcome is success with the plugin's values, and the plugin is not killed *)
+Theorem C14_start_agreement : forall sc env addr cert hc o v p sset cset,
+  gate_ok sc env = true ->
+  server_pick (sv_serve sc) (getenv env (bs "PLUGIN_PROTOCOL_VERSIONS")) = (v, p, sset) -> in64 v ->
+  no_bar addr = true -> no_nl addr = true -> no_bar cert = true -> forallb plain_byte cert = true ->
+  mget (client_map (Handshake.h_client hc)) v = Some cset ->
+  o_translate_ok o = true -> (bytes_eqb (o_net o) (bs "tcp") || bytes_eqb (o_net o) (bs "unix")) = true -> o_resolves o = true ->
+  mem_bytes (proto_bytes p) (Handshake.h_allowed hc) = true ->
+  ((hp_cert_len gen_hs_params < List.length cert)%nat -> o_cert_parses o = true /\ Handshake.h_has_tls hc = true) ->
+  (Handshake.h_mux hc = true -> p = PGrpc -> getenv env (svp_mux_key gen_sv_params) <> []) ->
+  exists line, serve gen_sv_params sc env addr cert = [SvListen; SvPrint line; SvSwapStdio] /\
+    ((blen line < max_token)%N -> forall rest t, exists eff,
+       start_after_launch gen_hs_params hc o (line ++ 10%N :: rest) t =
+         [(OOk {| a_net := o_net o; a_addr := o_canon o; a_resolved := true; a_proto := proto_bytes p; a_version := v; a_set := ps_id cset |}, eff)]
+       /\ has_kill eff = false).
+Proof.
+  apply (start_agreement gen_sv_params gen_hs_params); try reflexivity.
+  - unfold in64, int_min, int_max. cbn. split; discriminate.
+  - cbn. repeat constructor.
+Qed.
+
+(* FROM CONFIGURATION TO RESULT.  A host whose version sets are [h_client hc] builds the plugin's environment as
+   client.go does (Model/Env.v, any Cmd.Env and host environment), the plugin -- same cookie -- reads it (last binding
+   wins), negotiates, prints; the host scans and parses.  With a version in common, the protocol registered for it
+   allowed, a resolvable address and agreeing transport options, Start succeeds with the highest common version. *)
+Theorem C14_launch_to_start : forall c cert_env dir cmd_env host_env sc addr cert hc o,
+  EnvP.ctl c -> cert_env <> [] ->
+  sv_key sc = Env.e_cookie_key c -> sv_value sc = Env.e_cookie_value c -> Env.e_cookie_key c <> [] -> Env.e_cookie_value c <> [] ->
+  Env.e_versions c = mkeys (client_map (Handshake.h_client hc)) -> Handshake.h_mux hc = Env.e_mux c ->
+  Forall in64 (mkeys (client_map (Handshake.h_client hc))) -> Forall in64 (mkeys (server_map (sv_serve sc))) ->
+  (exists v, In v (mkeys (server_map (sv_serve sc))) /\ In v (mkeys (client_map (Handshake.h_client hc)))) ->
+  no_bar addr = true -> no_nl addr = true -> no_bar cert = true -> forallb plain_byte cert = true ->
+  o_translate_ok o = true -> (bytes_eqb (o_net o) (bs "tcp") || bytes_eqb (o_net o) (bs "unix")) = true -> o_resolves o = true ->
+  let penv := ChainP.to_pairs (Env.build_env gen_env_params c cert_env dir cmd_env host_env) in
+  let r := server_pick (sv_serve sc) (getenv penv (bs "PLUGIN_PROTOCOL_VERSIONS")) in
+  mem_bytes (proto_bytes (snd (fst r))) (Handshake.h_allowed hc) = true ->
+  ((hp_cert_len gen_hs_params < List.length cert)%nat -> o_cert_parses o = true /\ Handshake.h_has_tls hc = true) ->
+  exists line cset, serve gen_sv_params sc penv addr cert = [SvListen; SvPrint line; SvSwapStdio] /\
+    is_max_common (fst (fst r)) (mkeys (server_map (sv_serve sc))) (mkeys (client_map (Handshake.h_client hc))) /\
+    mget (client_map (Handshake.h_client hc)) (fst (fst r)) = Some cset /\
+    ((blen line < max_token)%N -> forall rest t, exists eff,
+       start_after_launch gen_hs_params hc o (line ++ 10%N :: rest) t =
+         [(OOk {| a_net := o_net o; a_addr := o_canon o; a_resolved := true; a_proto := proto_bytes (snd (fst r));
+                  a_version := fst (fst r); a_set := ps_id cset |}, eff)]
+       /\ has_kill eff = false).
+Proof.
+  apply ChainP.launch_to_start; [reflexivity|]. unfold in64, int_min, int_max. cbn. split; discriminate.
+Qed.
+Print Assumptions C14_launch_to_start.
 
 (* ... and the mismatches surface at start, with the plugin terminated: the announced version is not one the host has;
    the announced protocol is not allowed; multiplexing was asked for from a plugin that does not advertise it *)
